@@ -259,7 +259,7 @@ func pBoard(p string, ts []string) (b brd, ok bool) {
 		return
 	}
 	switch b.ban {
-	case "none", "act", "exp", "junk":
+	case "none", "act", "exp", "junk", "empty", "dir":
 	default:
 		return b, false
 	}
@@ -501,6 +501,30 @@ func makeUser(r row) *ptttype.UserecRaw {
 	return u
 }
 
+// setBan puts the user's ban record for the board into the state the row names.
+func setBan(b brd) {
+	now := types.NowTS()
+	banFile := env.Path("home", theID[:1], theID, "banned", "b_"+b.name)
+	switch b.ban {
+	case "none":
+		_ = os.RemoveAll(banFile)
+	case "act":
+		must(os.MkdirAll(filepath.Dir(banFile), 0o755))
+		must(os.WriteFile(banFile, []byte(fmt.Sprintf("%d\nflood\n", int64(now)+3600)), 0o644))
+	case "exp":
+		must(os.MkdirAll(filepath.Dir(banFile), 0o755))
+		must(os.WriteFile(banFile, []byte(fmt.Sprintf("%d\nflood\n", int64(now)-3600)), 0o644))
+	case "junk":
+		must(os.MkdirAll(filepath.Dir(banFile), 0o755))
+		must(os.WriteFile(banFile, []byte("soon\nflood\n"), 0o644))
+	case "empty":
+		must(os.MkdirAll(filepath.Dir(banFile), 0o755))
+		must(os.WriteFile(banFile, nil, 0o644))
+	case "dir":
+		must(os.MkdirAll(banFile, 0o755))
+	}
+}
+
 func setBoard(b brd, now types.Time4) {
 	i := int(bidOf(b.name)) - 1
 	h := &cache.Shm.Shm.BCache[i]
@@ -515,20 +539,7 @@ func setBoard(b brd, now types.Time4) {
 	if b.friend && !keepFriends {
 		cache.Shm.Shm.Hbfl[i][1] = theUID
 	}
-	banFile := env.Path("home", theID[:1], theID, "banned", "b_"+b.name)
-	switch b.ban {
-	case "none":
-		_ = os.Remove(banFile)
-	case "act":
-		must(os.MkdirAll(filepath.Dir(banFile), 0o755))
-		must(os.WriteFile(banFile, []byte(fmt.Sprintf("%d\nflood\n", int64(now)+3600)), 0o644))
-	case "exp":
-		must(os.MkdirAll(filepath.Dir(banFile), 0o755))
-		must(os.WriteFile(banFile, []byte(fmt.Sprintf("%d\nflood\n", int64(now)-3600)), 0o644))
-	case "junk":
-		must(os.MkdirAll(filepath.Dir(banFile), 0o755))
-		must(os.WriteFile(banFile, []byte("soon\nflood\n"), 0o644))
-	}
+	setBan(b)
 }
 
 // keepFriends: during a friend-list history the list file and the shared-memory list of the boards survive the
@@ -870,9 +881,13 @@ var ops = map[string]bool{"newpost": true, "recommend": true, "editpost": true, 
 
 func execRow(line, op string, r row, witness string) {
 	u := materialise(r, cdWord(r), true)
+	const sentinel = types.Time4(0x12345670 | 7)
+	cache.Shm.Shm.CooldownTime[theUID-2], cache.Shm.Shm.CooldownTime[theUID] = sentinel, sentinel
 	before := snapshot()
 	res := callOp(op, r, u)
 	after := snapshot()
+	banAfterS, banAfterT := banKind(r.s.name), banKind(r.t.name)
+	nb1, nb2 := cache.Shm.Shm.CooldownTime[theUID-2], cache.Shm.Shm.CooldownTime[theUID]
 	trace := "same"
 	if before != after {
 		trace = "changed"
@@ -888,6 +903,143 @@ func execRow(line, op string, r row, witness string) {
 	}
 	i := run.Op(line, out, label, true)
 	judge(i, op, r, res, trace)
+	// P̂: a permission check only reads the ban record; it may remove it only when it was readable and has expired
+	for _, x := range []struct {
+		b     brd
+		after string
+	}{{r.s, banAfterS}, {r.t, banAfterT}} {
+		want := map[string]string{"act": "file", "empty": "file", "dir": "dir"}[x.b.ban]
+		if want != "" && x.after != want {
+			run.Fail(i, "banrecord-destroyed:"+op, fmt.Sprintf("%s: the ban record for %s was %q before the call and is %q after it", op, x.b.name, x.b.ban, x.after))
+		}
+	}
+	// P̂: the cool-down words of the accounts next to the user's slot are not the user's to write
+	if nb1 != sentinel || nb2 != sentinel {
+		run.Fail(i, "cooldown-neighbour-clobbered:"+op, fmt.Sprintf("%s by uid %d changed the cool-down word of uid %d or %d (%#x, %#x)", op, theUID, theUID-1, theUID+1, uint32(nb1), uint32(nb2)))
+	}
+}
+
+func banPath(board string) string { return env.Path("home", theID[:1], theID, "banned", "b_"+board) }
+
+// banKind: none | file | dir
+func banKind(board string) string {
+	st, err := os.Lstat(banPath(board))
+	if err != nil {
+		return "none"
+	}
+	if st.IsDir() {
+		return "dir"
+	}
+	return "file"
+}
+
+// ---- histories on the ban record ------------------------------------------------------------------------
+
+func execBanrec(line, op string, steps []string) {
+	r := baseRow()
+	keepFriends = false
+	materialise(r, 0, true)
+	board := r.s.name
+	if op == "crosspost" {
+		board = r.t.name
+	}
+	path := banPath(board)
+	must(os.MkdirAll(filepath.Dir(path), 0o755))
+	var held *os.File
+	defer func() {
+		if held != nil {
+			held.Close()
+		}
+	}()
+	// P̂'s own view: what the moderator / the board believes about the ban
+	intended := "none"
+	var outs []string
+	type pj struct{ res, trace, intended, after string }
+	var js []pj
+	for _, st := range steps {
+		switch {
+		case strings.HasPrefix(st, "S:"):
+			if held != nil { // the writing session gives up
+				held.Close()
+				held = nil
+			}
+			_ = os.RemoveAll(path)
+			b := brd{name: board, ban: st[2:]}
+			setBan(b)
+			intended = st[2:]
+		case st == "B":
+			if held != nil {
+				held.Close()
+				held = nil
+			}
+			_ = os.RemoveAll(path)
+			f, err := os.OpenFile(path, os.O_CREATE|os.O_WRONLY|os.O_TRUNC, 0o644)
+			must(err)
+			held = f
+			intended = "pending"
+		case st == "F":
+			if held != nil {
+				_, err := held.WriteString(fmt.Sprintf("%d\nflood\n", int64(types.NowTS())+3600))
+				must(err)
+				must(held.Close())
+				held = nil
+				intended = "act"
+			}
+		case st == "P":
+			keepFriends = true // (keeps nothing of the ban: materialise below would remove the banned/ directory)
+			u := makeUser(r)
+			rebuildBoards(r)
+			before := snapshot()
+			res := callOp(op, r, u)
+			trace := "same"
+			if snapshot() != before {
+				trace = "changed"
+			}
+			keepFriends = false
+			after := banKind(board)
+			outs = append(outs, res+":"+trace+":"+after)
+			js = append(js, pj{res, trace, intended, after})
+			if intended == "exp" || intended == "junk" {
+				intended = "none" // readable and expired: the check may remove it
+			}
+		}
+	}
+	i := run.Op(line, strings.Join(outs, ","), "banrec:"+op, true)
+	for n, j := range js {
+		if j.res == "PANIC" || j.res == "TIMEOUT" {
+			run.Fail(i, "crash:"+op, fmt.Sprintf("write %d: %s (%s)", n+1, j.res, hx.LastPanic))
+			continue
+		}
+		want := map[string]string{"act": "file", "empty": "file", "pending": "file", "dir": "dir"}[j.intended]
+		if want != "" && j.after != want {
+			run.Fail(i, "banrecord-destroyed:"+op, fmt.Sprintf("write %d: the ban record was %q before the permission check and is %q after it", n+1, j.intended, j.after))
+		}
+		if j.intended == "act" && j.res == "ok" {
+			run.Fail(i, "missing:"+op+":banned", fmt.Sprintf("write %d accepted although the moderator's ban (expiry now+3600) is in force", n+1))
+		}
+		if j.res != "ok" && j.res != "err:lookup" && j.trace == "changed" {
+			run.Fail(i, "refused-sideeffect:"+op, fmt.Sprintf("write %d refused (%s) but left a trace", n+1, j.res))
+		}
+	}
+}
+
+// rebuildBoards: the board directories, index and article of the row again (between the writes of a history), without
+// touching home/.
+func rebuildBoards(r row) {
+	for i, n := range boardNames {
+		clearDir(boardDir(n))
+		cache.Shm.Shm.Total[i] = 0
+		cache.Shm.Shm.LastPostTime[i] = 0
+	}
+	d := boardDir(r.s.name)
+	dir, err := os.Create(filepath.Join(d, ".DIR"))
+	must(err)
+	must(types.BinaryWrite(dir, binary.LittleEndian, mkHeader(fillerName, "other", 0, 0)))
+	must(os.WriteFile(filepath.Join(d, fillerName), articleBody, 0o644))
+	must(types.BinaryWrite(dir, binary.LittleEndian, mkHeader(r.a.entName, r.a.entOwner, r.a.mode, r.a.modified)))
+	must(dir.Close())
+	must(os.WriteFile(filepath.Join(d, r.a.argName), articleBody, 0o644))
+	cache.Shm.Shm.CooldownTime[theUID-1] = 0
 }
 
 func execFlood(line string, nu int32, k int, bc bool) {
@@ -1209,6 +1361,28 @@ func execLine(line string) {
 		return
 	}
 	switch {
+	case ws[1] == "banrec":
+		if len(ws) != 4 || !ops[ws[2]] {
+			bad()
+			return
+		}
+		steps := strings.Split(ws[3], "/")
+		nP := 0
+		okSteps := len(steps) <= 16
+		for _, st := range steps {
+			switch st {
+			case "P":
+				nP++
+			case "B", "F", "S:none", "S:act", "S:exp", "S:junk", "S:empty", "S:dir":
+			default:
+				okSteps = false
+			}
+		}
+		if !okSteps || nP == 0 {
+			bad()
+			return
+		}
+		execBanrec(line, ws[2], steps)
 	case ws[1] == "thread":
 		if len(ws) != 5 {
 			bad()
@@ -1303,7 +1477,7 @@ func execLine(line string) {
 // implFacts: the same line the Lean driver prints from Gen/WriteGuards.lean; here the claims are constants —
 // a source change that invalidates one makes the two lines differ.
 func implFacts() string {
-	return fmt.Sprintf("newPostDelegates=true postperm2=true hbflReplaces=true hbflMissingKeeps=false maxFriend=%d guardsFirst=true,true,true,true", int(ptttype.MAX_FRIEND))
+	return fmt.Sprintf("newPostDelegates=true postperm2=true banCleanupOnReadError=false hbflReplaces=true hbflMissingKeeps=false maxFriend=%d guardsFirst=true,true,true,true", int(ptttype.MAX_FRIEND))
 }
 
 func main() {
